@@ -8,7 +8,7 @@ from . import cliprules as CR
 
 LEVEL = 'other'
 EXPLANATION = ('(a) Kani/CBMC: one step of SimpleCycle::try_extend from an ARBITRARY valid cycle over 6 planes (symbolic successor array, also with plane '
-               'indices 62..67) keeps the cycle valid, changes its length by exactly one in the two documented configurations and leaves the state '
+               'indices 14..19; 62..67 in the thorough tier) keeps the cycle valid, changes its length by exactly one in the two documented configurations and leaves the state '
                'untouched on Err - an inductive step that covers histories of any length. (b) Engine M executes the real clip_by_plane + '
                'compute_boundary + SimpleCycle MIR on catalogue cells (the initial cube cell with the dual triples read from the MIR of '
                'ConvexCell::init, and a tetrahedron) with a SYMBOLIC clipping plane (real HalfSpace::clip; z3 admits only sign patterns an affine '
@@ -19,7 +19,10 @@ EXPLANATION = ('(a) Kani/CBMC: one step of SimpleCycle::try_extend from an ARBIT
 
 KANI = [
     {'name': 'cycle_step_base0', 'role': 'proof', 'timeout': 900, 'bounds': 'arbitrary valid cycle over 6 planes (indices 0..5), arbitrary distinct a,b,c; unwind 8'},
-    {'name': 'cycle_step_base62', 'role': 'proof', 'timeout': 1200, 'bounds': 'same with plane indices 62..67 (68 planes in the cell)'},
+    {'name': 'cycle_step_base14', 'role': 'proof', 'timeout': 1200, 'bounds': 'same with plane indices 14..19 (20 planes in the cell); unwind 22'},
+]
+KANI_THOROUGH = [
+    {'name': 'cycle_step_base62', 'role': 'proof', 'timeout': 3600, 'bounds': 'same with plane indices 62..67 (68 planes in the cell); unwind 70'},
 ]
 
 
@@ -38,7 +41,7 @@ def check(run):
     except (engine.Inconclusive, Unsupported) as e:
         # the MIR-level part could not be encoded for this tree: recorded as inconclusive; the Kani part below still runs
         run.inconclusive.append('MIR-level clip_by_plane obligations not encoded: %s' % str(e)[:300])
-    kanirun.run(run, 'C18', KANI, jobs=2)
+    kanirun.run(run, 'C18', KANI + (KANI_THOROUGH if run.tier == 'thorough' else []), jobs=3)
     run.assume('float leaves (intersect_planes of the new vertices, safety radius) abstracted: equal vertex sets give equal volumes only up to rounding')
     return run.finish(LEVEL, EXPLANATION, trusted=['rustc -Zunpretty=mir', 'z3 5.1.0', 'Kani 0.68 / CBMC 6.11', 'std Vec/slice/iterator models of mirsym'])
 
